@@ -76,9 +76,11 @@ class Render:
             return "{ %s; }" % self.clist(c[1])
         if k == "(":
             body = self.clist(c[1])
-            # brush's parser rejects `esac )` (finding KF-C02-esac-rparen) and reads `( ( x ) )` as an
-            # arithmetic command (KF-C02-nested-subshell); `...; )` is equivalent and accepted
-            semi = body.endswith("esac") or (body.startswith("(") and body.endswith(")"))
+            # brush's parser rejects a subshell whose last, unterminated list item contains a `case` command
+            # (`( case x in x) a ;; esac )`, `( case ... esac | cat )`, `( ! case ... esac )`: finding KF-C02-esac-rparen)
+            # and reads `( ( x ) )` as an arithmetic command (KF-C02-nested-subshell). A `;` before the closing
+            # parenthesis is equivalent and accepted, so every body that mentions `esac` gets one.
+            semi = "esac" in body or (body.startswith("(") and body.endswith(")"))
             return "( %s%s )" % (body, ";" if semi else "")
         if k == "i":
             s = "if %s; then %s; " % (self.clist(c[1]), self.clist(c[2]))
@@ -366,6 +368,8 @@ class Gen:
             inner = ctx.sub(loops=ctx.loops + 1, cl=None if ctx.cl is None else ctx.cl + 1)
             return ("o", (not ctx.indef) and r.random() < 0.35, r.choice([0, 1, 2, 2, 3]), self.clist(inner))
         if x < 0.88:
+            if r.random() < 0.4:
+                return ("a", self.case_chain(sub))
             arms = []
             for _ in range(r.randint(1, 4)):
                 arms.append((r.random() < 0.6, r.choice([0, 0, 1, 2]), None if r.random() < 0.08 else self.clist(sub, maxlen=2)))
@@ -373,6 +377,30 @@ class Gen:
         f = r.randrange(0, 3)
         inner = ctx.sub(loops=0, fn=True, indef=True, cl=None)
         return ("d", f, ("{" if r.random() < 0.8 else "(", self.clist(inner)))
+
+    def case_chain(self, ctx):
+        """terminator chains: an item ending in `;&` falls into the next one, `;;&` resumes pattern matching, so a later
+        item whose pattern does not match must be skipped; every item leaves a marker (or a probe) and a status"""
+        r = self.rng
+
+        def body():
+            if ctx.silent:
+                return [simple(st(r.choice([0, 1, 3])))]
+            l = [simple(self.mark())]
+            if r.random() < 0.5:
+                l.append(simple(("p",)))
+            if r.random() < 0.4:
+                l.append(simple(st(r.choice([0, 1, 3]))))
+            return l
+        arms = []
+        if r.random() < 0.3:
+            arms.append((False, r.choice([0, 1, 2]), body()))
+        arms.append((True, 1, body()))                            # x) ... ;&
+        arms.append((r.random() < 0.5, 2, body()))                # falls in here; ;;& resumes matching
+        arms.append((False, r.choice([0, 1, 2]), body()))         # must not run
+        for _ in range(r.randint(0, 2)):
+            arms.append((r.random() < 0.5, r.choice([0, 0, 1, 2]), body()))
+        return arms
 
     def pipeline(self, ctx):
         r = self.rng
